@@ -12,14 +12,6 @@ func init() {
 	register("V3", "a validator has no early way out: every success return (return nil) of a validate function lies behind every check that guards its final success return — a shortcut such as 'the cardinality field says full, nothing to count' accepts exactly the streams in which that field lies", ruleV3)
 }
 
-// v3Triaged: early success returns of today's tree, confirmed by reading.
-var v3Triaged = map[string]struct {
-	n   int
-	why string
-}{
-	"(*roaring.runContainer16).validate": {1, "the early success tests sizeAsRun < min(sizeAsBitmap, sizeAsArray), which is the negation of the disjunction of the two size checks that follow it"},
-}
-
 func ruleV3(p *Prog) *RuleResult {
 	res := newResult("V3", ruleDoc["V3"], 5)
 	fns := append([]*ssa.Function(nil), p.sourceFns()...)
@@ -29,7 +21,7 @@ func ruleV3(p *Prog) *RuleResult {
 			continue
 		}
 		ln := strings.ToLower(f.Name())
-		if ln != "validate" && ln != "checkkeyssorted" {
+		if !strings.HasPrefix(ln, "validate") && ln != "checkkeyssorted" {
 			continue
 		}
 		r := f.Signature.Results()
@@ -83,7 +75,7 @@ func ruleV3(p *Prog) *RuleResult {
 			}
 			isEarly := false
 			for _, chk := range checks {
-				if !chk.Dominates(s.Block()) {
+				if !chk.Dominates(s.Block()) && !sameQuantityShortcut(s, chk) {
 					isEarly = true
 					bad = fmt.Sprintf("the success return at %s is not behind the check at %s, which guards the final success return", p.ipos(s), p.ipos(chk.Instrs[len(chk.Instrs)-1]))
 				}
@@ -92,10 +84,7 @@ func ruleV3(p *Prog) *RuleResult {
 				early++
 			}
 		}
-		if tr, ok := v3Triaged[fname(f)]; ok && early <= tr.n {
-			res.ok(c, p.pos(f.Pos()), fmt.Sprintf("%d early success return(s), triaged: %s", early, tr.why))
-			continue
-		}
+		_ = early
 		if bad != "" {
 			res.bad(c, p.pos(f.Pos()), bad)
 		} else {
@@ -103,4 +92,39 @@ func ruleV3(p *Prog) *RuleResult {
 		}
 	}
 	return res
+}
+
+// sameQuantityShortcut: the early success return s is taken on a comparison of the very quantity that the
+// skipped check chk compares (sizeAsRun < min(a, b) ahead of sizeAsRun >= a and sizeAsRun >= b): a shortcut
+// over the same decision, not a way around it.
+func sameQuantityShortcut(s *ssa.Return, chk *ssa.BasicBlock) bool {
+	ci, ok := chk.Instrs[len(chk.Instrs)-1].(*ssa.If)
+	if !ok {
+		return false
+	}
+	cc, ok := ci.Cond.(*ssa.BinOp)
+	if !ok {
+		return false
+	}
+	// the branch that decides s: the nearest dominator ending in an If
+	for d := s.Block().Idom(); d != nil; d = d.Idom() {
+		ifi, ok := d.Instrs[len(d.Instrs)-1].(*ssa.If)
+		if !ok {
+			continue
+		}
+		ec, ok := ifi.Cond.(*ssa.BinOp)
+		if !ok {
+			return false
+		}
+		for _, a := range []ssa.Value{ec.X, ec.Y} {
+			if _, isC := a.(*ssa.Const); isC {
+				continue
+			}
+			if a == cc.X || a == cc.Y {
+				return true
+			}
+		}
+		return false
+	}
+	return false
 }
